@@ -41,6 +41,85 @@ func checkC19(c *Ctx) {
 	ruleAnd(c, "C19.a", "C19.b", "C19.c")
 	ruleSameFieldAppend(c, "C19.d")
 	ruleScalarOnlyViaAnd(c, "C19.d")
+	c.rule("C19.e", "the in-memory backend's matcher is a conjunction: it reads every criteria field and only its final return can yield true", 17)
+	ruleConjunctiveMatcher(c, "C19.e")
+}
+
+// ruleConjunctiveMatcher: (*imapmemserver.message).search must be a
+// conjunction over the criteria: every early return is the constant false, the
+// single `true` is the last statement, and every field of SearchCriteria the
+// server can populate is consulted.
+func ruleConjunctiveMatcher(c *Ctx, rule string) {
+	p := c.P
+	fn := p.Func("imapserver/imapmemserver", "message", "search")
+	crit := p.Named("", "SearchCriteria")
+	if fn == nil || crit == nil {
+		c.unresolvedRoot("(*imapmemserver.message).search")
+		return
+	}
+	nTrue, bad := 0, 0
+	var badPos = fn.Pos()
+	for _, ret := range returnsOf(fn) {
+		k, ok := unspill(ret.Results[0]).(*ssa.Const)
+		if !ok || k.Value == nil {
+			bad++
+			badPos = ret.Pos()
+			continue
+		}
+		if k.Value.String() == "true" {
+			nTrue++
+			// the true return must not be followed by further checks: its block has no criteria reads after it by construction;
+			// require that every block reading a criteria field can reach it only through a path, i.e. it is the unique one
+		}
+	}
+	c.check(bad == 0 && nTrue == 1, rule, "message.search: returns", badPos,
+		"all early returns are the constant false and there is exactly one `return true`",
+		fmt.Sprintf("%d returns yield a computed value and %d return true: a satisfied key can end the match early and skip the remaining keys", bad, nTrue))
+	// the `return true` block must post-dominate every read of a criteria field (no field is checked after it on another path)
+	read := map[string]bool{}
+	allInstrs(fn, func(i ssa.Instruction) {
+		if fa, ok := i.(*ssa.FieldAddr); ok {
+			if r, _ := fieldOf(fa); r.Owner == crit {
+				read[r.Field.Name()] = true
+			}
+		}
+	})
+	st := crit.Underlying().(*types.Struct)
+	for i := 0; i < st.NumFields(); i++ {
+		f := st.Field(i)
+		if requiresUnadvertisable(c, f) {
+			c.okTrivial(rule, "message.search reads "+f.Name(), f.Pos(), "field belongs to an extension the server never advertises")
+			continue
+		}
+		c.check(read[f.Name()], rule, "message.search reads "+f.Name(), fn.Pos(), "consulted by the matcher", "the matcher never looks at "+f.Name()+": that key of a SEARCH command is ignored")
+	}
+}
+
+// requiresUnadvertisable: the field's own comment says "requires X" and the
+// server's availableCaps can never emit X.
+func requiresUnadvertisable(c *Ctx, f *types.Var) bool {
+	doc := fieldComment(c.P, f)
+	idx := strings.Index(doc, "requires ")
+	if idx < 0 {
+		return false
+	}
+	adv := advertisableCaps(c.P)
+	words := strings.FieldsFunc(doc[idx+len("requires "):], func(r rune) bool { return r == ' ' || r == ',' || r == '\n' })
+	any := false
+	for _, w := range words {
+		w = strings.Trim(w, ".;")
+		if w == "or" || w == "and" || w == "" {
+			continue
+		}
+		if w != strings.ToUpper(w) && !strings.HasPrefix(w, "IMAP4") {
+			break
+		}
+		any = true
+		if adv[w] {
+			return false
+		}
+	}
+	return any
 }
 
 // ruleAnd evaluates (*SearchCriteria).And abstractly.
@@ -56,6 +135,7 @@ func ruleAnd(c *Ctx, ruleA, ruleB, ruleC string) {
 	st := crit.Underlying().(*types.Struct)
 	type cell struct{ a, b int }
 	results := map[cell]*objV{}
+	initial := map[cell]*objV{}
 	var evalErr error
 	for a := 0; a < 3; a++ {
 		for b := 0; b < 3; b++ {
@@ -76,7 +156,13 @@ func ruleAnd(c *Ctx, ruleA, ruleB, ruleC string) {
 					return ordV{"int:" + parts[1], rank}, true
 				}
 				if _, ok := t.Underlying().(*types.Slice); ok {
-					return listV{[]string{path}}, true
+					if rank == 0 {
+						return listV{}, true // an unset operand has empty lists
+					}
+					return listV{segs: []string{path}, aliasOf: path}, true
+				}
+				if _, ok := t.Underlying().(*types.Pointer); ok && rank == 0 {
+					return nilV{}, true
 				}
 				return symV{path: path, typ: t}, true
 			}
@@ -94,6 +180,16 @@ func ruleAnd(c *Ctx, ruleA, ruleB, ruleC string) {
 				}
 				return inner(path, t)
 			}
+			for fi := 0; fi < st.NumFields(); fi++ {
+				fl := st.Field(fi)
+				if v, ok := in.Input(rname+"."+fl.Name(), fl.Type()); ok {
+					recv.fields[fl.Name()] = v
+				}
+				if v, ok := in.Input(oname+"."+fl.Name(), fl.Type()); ok {
+					other.fields[fl.Name()] = v
+				}
+			}
+			initial[cell{a, b}] = copyObj(recv)
 			if _, err := in.Eval(obj, ptrV{recv}, []Val{ptrV{other}}); err != nil {
 				evalErr = err
 			}
@@ -107,9 +203,12 @@ func ruleAnd(c *Ctx, ruleA, ruleB, ruleC string) {
 	for i := 0; i < st.NumFields(); i++ {
 		f := st.Field(i)
 		name := f.Name()
+		// merged: in some scenario the result differs from what the receiver had
+		// (fields are pre-populated with the receiver's inputs)
 		written := false
-		for _, r := range results {
-			if _, ok := r.fields[name]; ok {
+		for cl, r := range results {
+			init, _ := initial[cl].fields[name]
+			if showVal(r.fields[name]) != showVal(init) {
 				written = true
 			}
 		}
@@ -146,13 +245,31 @@ func ruleAnd(c *Ctx, ruleA, ruleB, ruleC string) {
 			}
 		default:
 			if _, isSlice := f.Type().Underlying().(*types.Slice); isSlice {
-				l, ok := results[cell{1, 2}].fields[name].(listV)
-				segs := append([]string{}, l.segs...)
-				sort.Strings(segs)
-				want := []string{"criteria." + name, "other." + name}
-				c.check(ok && strings.Join(segs, "|") == strings.Join(want, "|"), ruleC, "And:"+name, fn.Pos(),
-					"= criteria."+name+" ++ other."+name,
-					"list field "+name+" becomes "+showVal(results[cell{1, 2}].fields[name])+", expected the concatenation of both operands' "+name)
+				okAll := true
+				detail := ""
+				for a := 0; a < 3; a++ {
+					for b := 0; b < 3; b++ {
+						l, ok := results[cell{a, b}].fields[name].(listV)
+						var want []string
+						if a != 0 {
+							want = append(want, "criteria."+name)
+						}
+						if b != 0 {
+							want = append(want, "other."+name)
+						}
+						segs := append([]string{}, l.segs...)
+						sort.Strings(segs)
+						if !ok || strings.Join(segs, "|") != strings.Join(want, "|") {
+							okAll = false
+							detail = fmt.Sprintf("with criteria %s and other %s, %s becomes %s, expected the concatenation of both operands' %s", rankName(a), rankName(b), name, showVal(results[cell{a, b}].fields[name]), name)
+						} else if l.aliasOf == "other."+name {
+							okAll = false
+							detail = fmt.Sprintf("with criteria %s and other %s, %s is the other operand's slice itself (shared backing array): a later And on either criteria silently changes the other", rankName(a), rankName(b), name)
+						}
+						c.evals++
+					}
+				}
+				c.check(okAll, ruleC, "And:"+name, fn.Pos(), "= criteria."+name+" ++ other."+name+" in all 9 emptiness combinations, never sharing the other operand's backing array", "list field "+detail)
 			} else {
 				c.note("field %s of SearchCriteria is assigned by And but has no merge oracle in the checker (type %s)", name, f.Type())
 			}
@@ -256,6 +373,15 @@ func ruleScalarOnlyViaAnd(c *Ctx, rule string) {
 		allInstrs(fn, func(i ssa.Instruction) {
 			switch x := i.(type) {
 			case *ssa.Store:
+				// `*criteria = something`: the whole accumulated criteria is replaced
+				if isSearchCriteria(x.Addr.Type()) && isParamDerived(x.Addr) {
+					if _, isField := x.Addr.(*ssa.FieldAddr); !isField {
+						if _, isIdx := x.Addr.(*ssa.IndexAddr); !isIdx {
+							c.fail(rule, fnKey(fn)+":store *criteria", x.Pos(), "the criteria being accumulated is overwritten as a whole: every key parsed before this point is dropped instead of intersected")
+							return
+						}
+					}
+				}
 				r, ok := fieldOf(x.Addr)
 				if !ok || r.Owner == nil || r.Owner.Obj().Name() != "SearchCriteria" || !isScalarKeyField(r.Field) {
 					return
